@@ -25,7 +25,8 @@
         (see Proofs/RunDiff.v): the table value t_diff = diff_source = FromFileText (old side of the pipeline diff = file text; the
         statement's other branch is True and C03_run_tables_branch shows which one /repo takes), the matcher's two contracts, transformers introduce
         no exotic line boundary, and [HW]: the four manifest writers' (diff, content) pairs have the round trip -
-        the writers are oracles of Run.v and HW is NOT proved (it is false on /repo for kf_manifest_crlf and
+        the writers are oracles of Run.v; HW is proved for the requirements.txt / setup.cfg writer models inside their guard and
+        discharged in C03_run_diffs_compose_manifest at the end of this file; elsewhere it is a premise (false on /repo for kf_manifest_crlf and
         kf_pyproject_phantom_line); so for manifests the claim rests on the end-to-end observation;
       - C03_changeset_changes_file: a change set made by a pipeline that has the `if not diff` guard (libcst, XML)
         names a file whose content that step changed, and its diff applies to the content before the step.
